@@ -10,6 +10,9 @@
    The function is preserved for TOTAL assignments only (ALWAYS_TRUE becomes OR(x, NOT x); and a
    rewritten comparison gate may be more defined than the original under a partial assignment:
    C14_partial_assignments_differ). *)
+(* the simple Circuit methods these theorems rest on are regenerated from the source (translator T9)
+   and proved equal to the model: keep those equality lemmas in this property's proof cone *)
+Require Cirbo.Proofs.CircuitCoreGen Cirbo.Proofs.CircuitCoreGen2.
 Require Import Cirbo.Model.Base Cirbo.Model.Gate Cirbo.Model.Den Cirbo.Model.Circuit Cirbo.Model.Connect
         Cirbo.Model.Eval Cirbo.Model.Sem Cirbo.Model.History Cirbo.Model.WF.
 Require Import Cirbo.Generated.Operators Cirbo.Generated.GateTypes.
